@@ -27,3 +27,7 @@ Check eq_refl : bind_impl [(1%N, false); (2%N, true)] 1 [1%N] = inr (Twice 1%N).
 Check eq_refl : bind_impl [(1%N, false); (2%N, true)] 0 [2%N] = inr (NotBound 1%N).
 Check eq_refl : bind_impl [(1%N, false); (2%N, true)] 1 [7%N] = inr (Unknown 7%N).
 Check eq_refl : spec_src [(1%N, false); (2%N, true)] 1 [] 1 = Some (SDefault 1).
+Check C01_sem_fuel_independent :
+  forall n m e, n <= m ->
+    fst (JrV.Sem.Interp.run n e) <> JrV.Sem.Interp.OErr JrV.Sem.Interp.KFuel ->
+    JrV.Sem.Interp.run m e = JrV.Sem.Interp.run n e.
